@@ -119,7 +119,7 @@ def gen(rng, tier):
             "end": rng.choice(["exit", "exit", "crash", "drop"]),
             "refuse_fault": None, "do_a": rng.random() < 0.6, "gc_at": rng.randrange(14),
             "old_state": rng.choice(["as_imported", "as_imported", "as_imported", "emptied", "partly_deleted"]),
-            "race": rng.random() < 0.2, "race_seed": rng.getrandbits(32)}
+            "race": rng.random() < 0.2, "race_seed": rng.getrandbits(32), "live_generator": rng.random() < 0.6}
     r = rng.random()
     if r < 0.3:
         case["refuse_fault"] = {"frac": rng.random(), "mode": rng.choice(["error", "crash", "cancel"])}
@@ -304,6 +304,10 @@ def run(case):
             n = w.node()
             if case["keep_handle"]:
                 call(n, {"op": "open", "h": "old", "db": "a.db"})
+                if case.get("live_generator", True):
+                    # ... with a partly consumed result generator (an open cursor on the old file)
+                    call(n, {"op": "read", "h": "old", "m": "all_features", "consume": 1})
+                    probes["live_generator_on_old_handle"] = 1
             req = {"op": "create", "h": "x", "db": "a.db", "data": _src(case["new"], case["form"]),
                    "kw": {"merge_strategy": "create_unique", "force": False}}
             # fault-free refusal first (also tells how many seam points the refused call has)
